@@ -33,4 +33,11 @@ def _t(v):
         return ("dict",) + tuple(sorted(((_t(k), _t(x)) for k, x in v.items()), key=repr))
     if t in (set, frozenset):
         return (t.__name__,) + tuple(sorted((_t(x) for x in v), key=repr))
+    if isinstance(v, dict):          # instance of a dict subclass (OrderedDict: the order is part of the value)
+        items = [(_t(k), _t(x)) for k, x in v.items()]
+        return ("dict:" + t.__name__,) + tuple(items if t.__name__ == "OrderedDict" else sorted(items, key=repr))
+    if isinstance(v, (set, frozenset)):
+        return ("set:" + t.__name__,) + tuple(sorted((_t(x) for x in v), key=repr))
+    if t.__name__ == "Decimal":
+        return ("decimal", str(v))
     return ("obj", t.__name__, _t(getattr(v, "__dict__", None)))
